@@ -319,6 +319,73 @@ void do_layout(Toks &tk, std::ostream &os)
         os << "\n";
     }
 }
+// ------------------------------------------------------------------ WMEM: write_membership_file on given labels / matrix
+void do_wmem(Toks &tk, std::ostream &os)
+{
+    std::string id = "M " + tk.tok();
+    size_t N = (size_t)tk.integer(), K = (size_t)tk.integer();
+    std::vector<size_t> labels;
+    for (size_t i = 0; i < N; i++)
+        labels.push_back(parse_as<size_t>(tk.tok()));
+    tensor::Matrix<double> m(N, K);
+    for (size_t i = 0; i < N; i++)
+        for (size_t k = 0; k < K; k++)
+            m(i, k) = tk.flt();
+    utils::Report rep{};
+    rep.nof_realizations = 1;
+    rep.vec_L2.push_back(-1.0);
+    write_membership_file(boost::filesystem::path(g_tmp_path), labels, m, rep);
+    std::ifstream in(g_tmp_path);
+    std::string line;
+    size_t n = 0;
+    while (std::getline(in, line))
+    {
+        if (n > 0)
+        {
+            std::istringstream is(line);
+            std::string t;
+            os << id << " line " << n << " :";
+            while (is >> t)
+                os << " " << t;
+            os << "\n";
+        }
+        n++;
+    }
+    std::remove(g_tmp_path.c_str());
+}
+
+// ------------------------------------------------------------------ WAFV: write_affinity_file on given values
+void do_wafv(Toks &tk, std::ostream &os)
+{
+    std::string id = "V " + tk.tok();
+    size_t K = (size_t)tk.integer(), L = (size_t)tk.integer();
+    bool assort = tk.integer() == 1;
+    std::vector<double> aff(assort ? K * L : K * K * L);
+    for (size_t p = 0; p < aff.size(); p++)
+        aff[p] = tk.flt();
+    utils::Report rep{};
+    rep.nof_realizations = 1;
+    rep.vec_L2.push_back(-1.0);
+    write_affinity_file(boost::filesystem::path(g_tmp_path), aff, rep, K, L);
+    std::ifstream in(g_tmp_path);
+    std::string line;
+    size_t n = 0;
+    while (std::getline(in, line))
+    {
+        if (n > 0)
+        {
+            std::istringstream is(line);
+            std::string t;
+            os << id << " line " << n << " :";
+            while (is >> t)
+                os << " " << t;
+            os << "\n";
+        }
+        n++;
+    }
+    std::remove(g_tmp_path.c_str());
+}
+
 // ------------------------------------------------------------------ RESIZE: a tensor that held one shape is resized to another
 void do_resize(Toks &tk, std::ostream &os)
 {
@@ -506,6 +573,10 @@ int main(int argc, char **argv)
                 vh::do_raff(tk, buf);
             else if (c == "RNG")
                 vh::do_rng(tk, buf);
+            else if (c == "WMEM")
+                vh::do_wmem(tk, buf);
+            else if (c == "WAFV")
+                vh::do_wafv(tk, buf);
             else if (c == "RESIZE")
                 vh::do_resize(tk, buf);
             else if (c == "WAFF")
